@@ -15,7 +15,7 @@ LEVEL = "exploration"
 MENUS = [
     ("ytable", ["bdays", "noholiday", "weekendrow"]),
     ("xindex", ["same", "earlier3", "later2", "everyother", "extra"]),
-    ("nan", ["none", "leadingX", "interiorX", "interiorY", "leadingY"]),
+    ("nan", ["none", "leadingX", "interiorX", "interiorY", "leadingY", "tieY"]),
     ("assets", [2, 1]),
     ("transformer", [None, "z-score", "yeo-johnson"]),
     ("clip", [5.0, 1.0, 0.5]),
@@ -74,6 +74,10 @@ def tables(cfg, ndays=14):
         Y.iloc[5, 0] = np.nan
     elif cfg["nan"] == "leadingY":
         Y.iloc[0, :] = np.nan
+    elif cfg["nan"] == "tieY":
+        # unchanged closes: on the first date of the second fold (last asset) and on the fourth date (first asset)
+        Y.iloc[9, -1] = Y.iloc[8, -1]
+        Y.iloc[3, 0] = Y.iloc[2, 0]
     rate = None
     if cfg["rate"] in ("series", "sparse"):
         rate = pd.Series(0.01 + 0.002 * np.arange(len(idx)), index=idx, name="rf")
